@@ -384,6 +384,35 @@ def run_case(case, tier):
                      "detail": {"deleted": deleted[:12]}})
     else:
         census_mon.check(run, text, viol, counts, classes, allow_topup_extras=True, remove_penalised=not keep_pen)
+        if kind == "fragment" and case["frag"] in fragments.FRAGMENTS and case["frag"] != "sulfate":
+            # what is left of the ligand: a group whose atom stands clear of the deletion (nothing removed within
+            # three bonds) is still reported with its type, and a nitrogen left without any bonded atom is the same
+            # thing as the library's lone ammonium nitrogen (an N30 group)
+            resn_, atoms_, expect_ = fragments.FRAGMENTS[case["frag"]]
+            pos_ = {a[0]: a[2] for a in atoms_}
+            el_ = {a[0]: a[1] for a in atoms_}
+
+            def bonded_(x, y):
+                d2_ = sum((pos_[x][k_] - pos_[y][k_]) ** 2 for k_ in range(3))
+                return x != y and d2_ < (6.25 if el_[x] == el_[y] == "S" else 4.0)
+            nb1 = {a: {b for b in pos_ if bonded_(a, b)} for a in pos_}
+            nb2 = {a: nb1[a] | {c for b in nb1[a] for c in nb1[b]} for a in pos_}
+            nb2 = {a: nb2[a] | {c for b in nb2[a] for c in nb1[b]} for a in pos_}      # three bonds: an ester's far carbon
+            conf_ = run.rec["confs"][run.rec["names"][0]]
+            got_ = {g["aid"][5]: g["type"] for g in conf_["groups"] if g["aid"][2] == 900 and g["aid"][1] == "L"}
+            for a, t in expect_.items():
+                if a in dele or (nb2[a] & dele) or case["frag"] in ("pyridine", "aniline", "imidazole"):
+                    continue            # (a ring is perceived as a whole: any missing member changes every ring atom)
+                counts["fragment_groups_clear_of_the_deletion"] = counts.get("fragment_groups_clear_of_the_deletion", 0) + 1
+                if got_.get(a) != t:
+                    viol.append({"cls": "ligand-group-lost-far-from-the-deletion", "msg": "%s without %s: atom %s (nothing removed within three bonds) is typed %r, the library declares %s" % (
+                        case["frag"], sorted(dele), a, got_.get(a), t)})
+            for a in pos_:
+                if el_[a] == "N" and a not in dele and not (nb1[a] - dele):
+                    counts["lone_nitrogens"] = counts.get("lone_nitrogens", 0) + 1
+                    if got_.get(a) != "N30":
+                        viol.append({"cls": "lone-ligand-nitrogen-not-an-amine-group", "msg": "%s without %s: nitrogen %s has no bonded atom left and is typed %r (the lone nitrogen of the library's ammonium is an N30 group)" % (
+                            case["frag"], sorted(dele), a, got_.get(a))})
     for w in (run.logs or []):
         m = w[2]
         if "Missing atoms or failed protonation" in m:
